@@ -865,6 +865,136 @@ def render_decorators():
     return "\n".join(out)
 
 
+# --------------------------------------------------------------------------- configuration sections (C14)
+REL_SECTIONS = os.path.join("CobaldVerif", "Generated", "SrcSections.lean")
+
+
+def section_dependencies():
+    """core.config.load_section_plugins: the dependency table.  `plugins` is the dict of installed plugins by
+    section name (`names` in Lean); the table starts with every plugin's own `after` names that are installed and
+    gets, for every installed name in some plugin's `before`, that plugin added to the named entry."""
+    import cobald.daemon.core.config as core
+    st = _fn_body(core.load_section_plugins)
+    if len(st) != 4:
+        raise Untranslatable("load_section_plugins has %d statements" % len(st))
+    p0 = st[0].value if isinstance(st[0], (ast.AnnAssign, ast.Assign)) else None
+    if not (isinstance(p0, ast.DictComp) and ast.unparse(p0.key) == "plugin.section" and ast.unparse(p0.value) == "plugin"
+            and ast.unparse(p0.generators[0].iter) == "map(SectionPlugin.load, get_entrypoints(entry_point_group))" and not p0.generators[0].ifs):
+        raise Untranslatable("plugins table: %s" % ast.unparse(st[0])[:80])
+    d0 = st[1].value if isinstance(st[1], (ast.AnnAssign, ast.Assign)) else None
+    if not (isinstance(d0, ast.DictComp) and ast.unparse(d0.key) == "plugin.section" and isinstance(d0.value, ast.SetComp)
+            and ast.unparse(d0.generators[0].iter) == "plugins.values()" and ast.unparse(d0.generators[0].target) == "plugin" and not d0.generators[0].ifs):
+        raise Untranslatable("dependencies table: %s" % ast.unparse(st[1])[:80])
+    sc = d0.value
+    g = sc.generators[0]
+    if not (len(sc.generators) == 1 and isinstance(sc.elt, ast.Name) and isinstance(g.target, ast.Name) and sc.elt.id == g.target.id
+            and ast.unparse(g.iter) in ("plugin.after", "plugin.before")):
+        raise Untranslatable("own dependencies: %s" % ast.unparse(sc))
+    v = g.target.id
+    conds = []
+    for c in g.ifs:
+        if ast.unparse(c) == "%s in plugins" % v:
+            conds.append("decide (%s ∈ names)" % v)
+        else:
+            raise Untranslatable("filter %s" % ast.unparse(c))
+    own = "%s.filter (fun %s => %s)" % (ast.unparse(g.iter), v, " && ".join(conds) or "true")
+    start = "ps.map (fun plugin => (plugin.name, %s))" % own
+    outer = st[2]
+    if not (isinstance(outer, ast.For) and ast.unparse(outer.target) == "plugin" and ast.unparse(outer.iter) == "plugins.values()"
+            and len(outer.body) == 1 and isinstance(outer.body[0], ast.For) and not outer.orelse):
+        raise Untranslatable("outer loop: %s" % ast.unparse(outer)[:60])
+    inner = outer.body[0]
+    if not (isinstance(inner.target, ast.Name) and ast.unparse(inner.iter) in ("plugin.before", "plugin.after") and len(inner.body) == 1 and not inner.orelse):
+        raise Untranslatable("inner loop: %s" % ast.unparse(inner)[:60])
+    w = inner.target.id
+    stmt = inner.body[0]
+    guard = "true"
+    if isinstance(stmt, ast.If) and not stmt.orelse and len(stmt.body) == 1:
+        if ast.unparse(stmt.test) != "%s in plugins" % w:
+            raise Untranslatable("guard %s" % ast.unparse(stmt.test))
+        guard = "decide (%s ∈ names)" % w
+        stmt = stmt.body[0]
+    if ast.unparse(stmt) != "dependencies[%s].add(plugin.section)" % w:
+        raise Untranslatable("edge statement: %s" % ast.unparse(stmt)[:60])
+    ret = st[3]
+    if _nz(ast.unparse(ret)) != _nz("return tuple((plugins[plugin_name] for plugin_name in toposort_flatten(dependencies, sort=False) if plugin_name in plugins))"):
+        raise Untranslatable("result: %s" % ast.unparse(ret)[:80])
+    return ("let names := ps.map (·.name)\n  let start : Deps := %s\n  ps.foldl (fun d plugin => %s.foldl (fun d %s => if %s then addDep d %s plugin.name else d) d) start"
+            % (start, ast.unparse(inner.iter), w, guard, w))
+
+
+class LoadConfigurationTr:
+    def __init__(self):
+        from cobald.daemon.config import mapping
+        self.st = _fn_body(mapping.load_configuration)
+        if len(self.st) != 6:
+            raise Untranslatable("load_configuration has %d statements" % len(self.st))
+
+    def builtin(self):
+        tr = self.st[0]
+        if not (isinstance(tr, ast.Try) and len(tr.body) == 1 and isinstance(tr.body[0], ast.Assign) and isinstance(tr.body[0].value, ast.Call)
+                and ast.unparse(tr.body[0].value.func) == "config_data.pop" and len(tr.body[0].value.args) == 1
+                and isinstance(tr.body[0].value.args[0], ast.Constant) and isinstance(tr.body[0].value.args[0].value, str)
+                and len(tr.handlers) == 1 and ast.unparse(tr.handlers[0].type) == "KeyError" and [ast.unparse(x) for x in tr.handlers[0].body] == ["pass"]
+                and [ast.unparse(x) for x in tr.orelse] == ["configure_logging(logging_mapping)"] and not tr.finalbody):
+            raise Untranslatable("the logging section: %s" % ast.unparse(tr)[:80])
+        return '"%s"' % tr.body[0].value.args[0].value
+
+    def unknown(self):
+        a, b = self.st[1], self.st[2]
+        if _nz(ast.unparse(a)) != _nz("unmatched = config_data.keys() - {plugin.section for plugin in plugins}"):
+            raise Untranslatable("unmatched: %s" % ast.unparse(a)[:80])
+        if not (isinstance(b, ast.If) and ast.unparse(b.test) == "unmatched" and not b.orelse and len(b.body) == 1 and isinstance(b.body[0], ast.Raise)
+                and ast.unparse(b.body[0].exc).startswith("ConfigurationError(")):
+            raise Untranslatable("unknown sections: %s" % ast.unparse(b)[:80])
+        return "cfg.any (fun k => !(order.any (fun plugin => plugin.name == k)))"
+
+    def loop(self):
+        if ast.unparse(self.st[3]) != "content = {}" or ast.unparse(self.st[5]) != "return content":
+            raise Untranslatable("content table")
+        lp = self.st[4]
+        if not (isinstance(lp, ast.For) and ast.unparse(lp.target) == "plugin" and ast.unparse(lp.iter) == "plugins" and len(lp.body) == 1
+                and isinstance(lp.body[0], ast.Try) and not lp.orelse):
+            raise Untranslatable("loop: %s" % ast.unparse(lp)[:60])
+        tr = lp.body[0]
+        if [ast.unparse(x) for x in tr.body] != ["section_data = config_data[plugin.section]"] or len(tr.handlers) != 1 \
+                or ast.unparse(tr.handlers[0].type) != "KeyError" or tr.finalbody:
+            raise Untranslatable("section lookup: %s" % ast.unparse(tr)[:80])
+        h = tr.handlers[0].body
+        if not (len(h) == 1 and isinstance(h[0], ast.If) and ast.unparse(h[0].test) == "plugin.required" and not h[0].orelse
+                and len(h[0].body) == 1 and isinstance(h[0].body[0], ast.Raise) and ast.unparse(h[0].body[0].exc).startswith("ConfigurationError(")):
+            raise Untranslatable("missing section: %s" % [ast.unparse(x)[:60] for x in h])
+        missing = "if plugin.required then (.missingRequired plugin.name, log) else digestLoop cfg returns rest log kept"
+        e = [ast.unparse(x) for x in tr.orelse]
+        if e != ["plugin_content = plugin.digest(section_data)", "if plugin_content is not None:\n    content[plugin] = plugin_content"]:
+            raise Untranslatable("digest: %s" % e)
+        present = "digestLoop cfg returns rest (log ++ [plugin.name]) (if returns plugin.name then kept ++ [plugin.name] else kept)"
+        return "if plugin.name ∈ cfg then %s\n    else %s" % (present, missing)
+
+
+def render_sections():
+    out = ["/- GENERATED by harness/vh/translate.py from the source text of /repo (daemon/core/config.py load_section_plugins,",
+           "   daemon/config/mapping.py load_configuration) — do not edit.  Regenerated on every run of the C14 check. -/",
+           "import CobaldVerif.Model.Sections", "", "namespace Cobald.Gen.Sections", "open Cobald Cobald.Sections", "",
+           "/-- `dependencies[k].add(x)` -/",
+           "def addDep (d : Deps) (k x : String) : Deps := d.map (fun kd => if kd.1 = k then (kd.1, kd.2 ++ [x]) else kd)", ""]
+
+    def emit(name, sig, typ, thunk, fmt="def %s %s : %s :=\n  %s\n"):
+        try:
+            out.append(fmt % (name, sig, typ, thunk()))
+        except Untranslatable as e:
+            out.append("-- untranslatable (%s)\ndef %sUntranslatable : String := \"source outside the translated subset\"\n"
+                       % (str(e)[:100].replace("\n", " "), name))
+    emit("dependencies", "(ps : List Plugin)", "Deps", section_dependencies)
+    emit("builtinSection", "", "String", lambda: LoadConfigurationTr().builtin())
+    emit("unknownCheck", "(order : List Plugin) (cfg : List String)", "Bool", lambda: LoadConfigurationTr().unknown())
+    emit("digestLoop", "(cfg : List String) (returns : String → Bool)", "List Plugin → List String → List String → Outcome × List String",
+         lambda: LoadConfigurationTr().loop(),
+         fmt="def %s %s : %s\n  | [], log, kept => (.loaded kept, log)\n  | plugin :: rest, log, kept =>\n    %s\n")
+    out += ["end Cobald.Gen.Sections", ""]
+    return "\n".join(out)
+
+
 def regenerate():
     """returns True if the generated text changed"""
     a = lean.write_generated(REL, render())
@@ -872,4 +1002,5 @@ def regenerate():
     c = lean.write_generated(REL_CONTROLLERS, render_controllers())
     d = lean.write_generated(REL_STANDARDISER, render_standardiser())
     e = lean.write_generated(REL_DECORATORS, render_decorators())
-    return a or b or c or d or e
+    f = lean.write_generated(REL_SECTIONS, render_sections())
+    return a or b or c or d or e or f
